@@ -77,6 +77,7 @@ def char_set_of_atoms(leaf, cvar):
 def run(ctx):
     ctx.rule("RNG-1", "the code points sent to the surrogate-pair helper (under not-ASCII and surrogates requested) are exactly U+10000..=U+10FFFF")
     ctx.rule("ESCP-1", "ccp dispatch of the per-character escaper: ASCII unchanged; astral+surrogates -> helper mapping UTF-16 units through \\u{<hex>}; otherwise char::escape_unicode")
+    ctx.rule("ESCP-3", "the non-ASCII pass escapes char by char only: no str::escape_unicode / escape_default / escape_debug of a whole stored string")
     ctx.rule("ESCP-2", "every literal is escaped before printing: the literal printer calls the symbol escaper on the grapheme or on each of its repetitions on every path, "
                        "with the Literal's own two flags; the escaper calls the non-ASCII pass iff its first flag, which maps every char of every stored string")
     ctx.assume("char::escape_unicode yields \\u{<lower hex>} (documented); pure-ASCII output of the class printer and re-decodability are not decided")
@@ -231,6 +232,14 @@ def run(ctx):
             ctx.ok("ESCP-2", cb.path + ":maps chars() of each stored string through the escaper", None, cb.loc())
         else:
             ctx.violation("ESCP-2", (cb.path, "char map"), "the non-ASCII pass does not map str::chars() through the per-character escaper", cb.loc())
+        # ESCP-3: no whole-string escaper in the pass: str::escape_unicode / escape_default / escape_debug also rewrite the ASCII part of a stored string, i.e. the
+        # backslash escapes the symbol escaper has just produced (`\\.` becomes `\\u{5c}\\u{2e}`, a literal backslash followed by any character)
+        whole = sorted(x for x in all_callees(lib, cb) if re.search(r"<impl str>::escape_(?:unicode|default|debug)$", x))
+        if whole:
+            ctx.violation("ESCP-3", (cb.path, "whole-string escaper"), "the non-ASCII pass hands a whole stored string to %s: its ASCII characters are escaped as well, including the "
+                          "backslash escapes written just before (`\\.` becomes `\\u{5c}\\u{2e}`), so the pattern no longer matches the test case" % whole[0], cb.loc())
+        else:
+            ctx.ok("ESCP-3", cb.path + ":no whole-string escaper", None, cb.loc())
     literal_printer_escapes(ctx, lib, S)
 
 
